@@ -38,6 +38,8 @@ type Gen struct {
 	Store string
 	// ScalarOnly restricts atoms to comparisons / null tests / bool symbols over direct scalar symbols (C19)
 	ScalarOnly bool
+	// KidSets: sub-queries over the owners store use the set that is typed to the child store of things
+	KidSets bool
 }
 
 func (g *Gen) strLit(typ Type) Lit {
@@ -241,6 +243,9 @@ func (g *Gen) Atom(depth int) Expr {
 
 func (g *Gen) SubQ(depth int) *SubQ {
 	set := core.Pick(g.R, subSets[g.Store])
+	if g.KidSets && g.Store == Owners {
+		set = "kidlist"
+	}
 	target := symbols[g.Store][set].Target
 	sub := &Gen{R: g.R, W: g.W, Store: target}
 	q := &Query{Pred: sub.Expr(depth)}
